@@ -114,6 +114,7 @@ func faultSweep(c *core.Ctx, in *instance) *core.Result {
 		if er.Out.Err != nil {
 			fs.interrupted++
 			// live.TryStack counts the API-boundary frame too
+			st.Max("fault:max_live_try_stack", int64(live.TryStack))
 			t, i := live.TryStack > 1, live.IterStack > 0
 			switch {
 			case t && i:
